@@ -32,6 +32,9 @@ def rich_ops():
         al.delete(0),
         al.move(Ax, 0),
         al.rule(A, "path1"),
+        al.create(al.SH),  # one-stem prefix enclosing everything under http
+        al.page(al.LONGP, True),  # multi-block stem read right before short ones
+        al.links((al.LONGP, Ax), (Ab, al.LONGP)),
     ]
 
 
